@@ -3,6 +3,11 @@
 From HV Require Import Base.Prelude C06.Pat C06.Model C06.Spec C06.DbFacts C06.ReprFacts C06.RepoFacts C06.SpecFacts.
 From Coq Require Import Permutation.
 
+Section Fx.
+Variable fx : fixes.
+Notation KInv := (KInv fx).
+Notation set_good := (set_good fx).
+
 (** ** invariants *)
 
 (** the model state is consistent *)
@@ -20,13 +25,14 @@ Record Rel (K : list rule) (S : sets) : Prop := {
 (** the current rule sets are consistent (they were accepted, outside the guards) *)
 Record SInv (S : sets) : Prop := {
   s_nodup : NoDup (map fst S);
-  s_good : forall s ds, In (s, ds) S -> set_good ds = true /\ forallb valid_expr (exprs ds) = true;
+  s_good : forall s ds, In (s, ds) S ->
+             set_good ds = true /\ forallb valid_expr (exprs ds) = true /\ keys_ok ds = true;
   s_disj : forall s t ds dt p, In (s, ds) S -> In (t, dt) S -> s <> t -> In p (pats ds) -> ~ In p (pats dt) }.
 
 Lemma Inv_empty : Inv empty.
 Proof.
   split; simpl.
-  - split; simpl; try constructor; try tauto; intros x y q [].
+  - split; simpl; try constructor; try tauto; try (intros x y q []); try (intros x y []).
   - apply ReprV_nil.
   - apply ReprF_nil.
 Qed.
@@ -40,14 +46,30 @@ Proof. split; simpl; [constructor | tauto | tauto]. Qed.
 (** ** the rules a consistent set of rule sets holds are consistent *)
 
 Lemma set_good_parts ds : set_good ds = true ->
-  negb (f2_set ds) = true /\ negb (f4_set ds) = true /\ negb (dupid_set ds) = true /\ keys_ok ds = true.
-Proof. unfold set_good. rewrite !andb_true_iff. tauto. Qed.
+  negb (f2_set ds) = true /\ (fix_F4 fx = false -> negb (f4_set ds) = true) /\ negb (dupid_set ds) = true.
+Proof.
+  unfold SpecFacts.set_good. rewrite !andb_true_iff, orb_true_iff. intros [[A B] C]. split; [exact A|]. split; [|exact C].
+  intro F4. destruct B as [B|B]; [congruence | exact B].
+Qed.
 
 Lemma route_in_set S r x : SInv S -> In (r_def r) (get_set S (r_src r)) -> In x (routes_of r) ->
   exists ds, In (r_src r, ds) S /\ In (r_def r) ds /\ In x (routes (stamp (r_src r) ds)).
 Proof.
   intros SI Hr Hx. destruct (get_set_in _ _ _ Hr) as (ds & Hds & Hd). exists ds. split; [exact Hds|]. split; [exact Hd|].
   apply in_routes. exists r. split; [|exact Hx]. apply in_stamp. tauto.
+Qed.
+
+Lemma keys_ok_spec ds : keys_ok ds = true <->
+  forall a b, In a (exprs ds) -> In b (exprs ds) -> keys_compat a b = true.
+Proof.
+  unfold keys_ok. rewrite forallb_forall. split.
+  - intros H a b Ha Hb. specialize (H a Ha). rewrite forallb_forall in H. apply H. exact Hb.
+  - intros H a Ha. apply forallb_forall. intros b Hb. apply H; assumption.
+Qed.
+
+Lemma route_path_in_exprs s ds x : In x (routes (stamp s ds)) -> In (rt_path x) (exprs ds).
+Proof.
+  intro Hx. apply in_routes_stamp in Hx as (d & Hd & _ & He). unfold exprs. apply in_flat_map. exists d. tauto.
 Qed.
 
 Lemma KInv_of_sets K S : NoDup (map rkey K) -> SInv S ->
@@ -60,7 +82,7 @@ Proof.
     unfold rt_src. rewrite E. apply (route_in_set S r x SI (H r Hr) Hx). }
   assert (Hvalid : forall x, In x (routes K) -> rpat x <> None).
   { intros x Hx. destruct (Hroute x Hx) as (ds & Hds & _ & Hxs).
-    destruct (s_good _ SI _ _ Hds) as [_ V]. apply (proj1 (valid_exprs_routes (rt_src x) ds) V x Hxs). }
+    destruct (s_good _ SI _ _ Hds) as (_ & V & _). apply (proj1 (valid_exprs_routes (rt_src x) ds) V x Hxs). }
   assert (Hsrc : srcuni (routes K)).
   { intros x y q Hx Hy Hqx Hqy.
     destruct (Hroute x Hx) as (dx & Hdx & _ & Hxs). destruct (Hroute y Hy) as (dy & Hdy & _ & Hys).
@@ -68,24 +90,39 @@ Proof.
     apply (s_disj _ SI _ _ _ _ q Hdx Hdy N).
     - apply (pats_routes (rt_src x)). exists x. tauto.
     - apply (pats_routes (rt_src y)). exists y. tauto. }
+  assert (Hsame : forall x y, In x (routes K) -> In y (routes K) -> rt_src x = rt_src y ->
+            exists ds, In (rt_src x, ds) S /\ In (r_def (rt_rule x)) ds /\ In (r_def (rt_rule y)) ds /\
+                       In x (routes (stamp (rt_src x) ds)) /\ In y (routes (stamp (rt_src x) ds))).
+  { intros x y Hx Hy Es.
+    destruct (Hroute x Hx) as (dx & Hdx & Hdefx & Hxs). destruct (Hroute y Hy) as (dy & Hdy & Hdefy & Hys).
+    rewrite <- Es in Hdy, Hys.
+    assert (dy = dx).
+    { rewrite <- (in_get_set S _ _ (s_nodup _ SI) Hdx), <- (in_get_set S _ _ (s_nodup _ SI) Hdy). reflexivity. }
+    subst dy. exists dx. tauto. }
   split.
   - exact ND.
   - exact Hvalid.
-  - intros r Hr. destruct r as [s d]. destruct (get_set_in _ _ _ (H _ Hr)) as (ds & Hds & Hd). simpl in *.
-    destruct (s_good _ SI _ _ Hds) as [G V]. apply set_good_parts in G as (_ & G4 & _ & _).
+  - intros F4 r Hr. destruct r as [s d]. destruct (get_set_in _ _ _ (H _ Hr)) as (ds & Hds & Hd). simpl in *.
+    destruct (s_good _ SI _ _ Hds) as (G & V & _). apply set_good_parts in G as (_ & G4 & _).
     rewrite def_pats_routes.
-    + apply NoDup_map_Some. apply (good_f4 ds G4 d Hd).
+    + apply NoDup_map_Some. apply (good_f4 ds (G4 F4) d Hd).
     + intros e He. unfold valid_expr in V. rewrite forallb_forall in V.
       specialize (V e). destruct (pat_of e); [discriminate|].
       assert (false = true); [|discriminate]. apply V. apply in_flat_map. exists d. tauto.
-  - exact Hsrc.
+  - split; [exact Hsrc|].
+    intros x y Hx Hy. destruct (Nat.eq_dec (rt_src x) (rt_src y)) as [Es|N].
+    + destruct (Hsame x y Hx Hy Es) as (ds & Hds & _ & _ & Hxs & Hys).
+      destruct (s_good _ SI _ _ Hds) as (_ & _ & KO). rewrite keys_ok_spec in KO.
+      apply KO; eapply route_path_in_exprs; eassumption.
+    + (* different sources: different patterns *)
+      destruct (rpat y) as [p|] eqn:Ey; [|exfalso; apply (Hvalid y Hy Ey)].
+      apply (kcompat_other_pat x y p Ey).
+      destruct (has_pat p x) eqn:Hp; [|reflexivity]. exfalso. apply N.
+      apply (Hsrc x y p Hx Hy Hp). apply has_pat_rpat. exact Ey.
   - intros x y q Hx Hy Hqx Hqy.
     pose proof (Hsrc x y q Hx Hy Hqx Hqy) as Es.
-    destruct (Hroute x Hx) as (dx & Hdx & Hdefx & Hxs). destruct (Hroute y Hy) as (dy & Hdy & Hdefy & Hys).
-    rewrite <- Es in Hdy.
-    assert (dy = dx).
-    { rewrite <- (in_get_set S _ _ (s_nodup _ SI) Hdx), <- (in_get_set S _ _ (s_nodup _ SI) Hdy). reflexivity. }
-    subst dy. destruct (s_good _ SI _ _ Hdx) as [G _]. apply set_good_parts in G as (G2 & _ & _ & _).
+    destruct (Hsame x y Hx Hy Es) as (dx & Hdx & Hdefx & Hdefy & _ & _).
+    destruct (s_good _ SI _ _ Hdx) as (G & _ & _). apply set_good_parts in G as (G2 & _ & _).
     unfold rt_bt. apply (good_f2 dx G2 _ _ Hdefx Hdefy).
     apply share_pat_spec. exists q.
     apply in_routes in Hx as (rx & _ & Hx). apply in_routes in Hy as (ry & _ & Hy).
@@ -209,11 +246,11 @@ Proof.
   assert (Incl : incl (routes (filter P K)) (routes K)).
   { intros x Hx. rewrite routes_filter in Hx. apply filter_In in Hx. tauto. }
   split.
-  - apply NoDup_map_incl_filter. apply (k_keys _ I).
-  - intros x Hx. apply (k_valid _ I). apply Incl. exact Hx.
-  - intros r Hr. apply filter_In in Hr as [Hr _]. apply (k_pats _ I r Hr).
-  - eapply srcuni_incl; [exact Incl | apply (k_src _ I)].
-  - eapply btuni_incl; [exact Incl | apply (k_bt _ I)].
+  - apply NoDup_map_incl_filter. apply (k_keys _ _ I).
+  - intros x Hx. apply (k_valid _ _ I). apply Incl. exact Hx.
+  - intros F4 r Hr. apply filter_In in Hr as [Hr _]. apply (k_pats _ _ I F4 r Hr).
+  - eapply uni_incl; [exact Incl | apply (k_uni _ _ I)].
+  - eapply btuni_incl; [exact Incl | apply (k_bt _ _ I)].
 Qed.
 
 Lemma bool_eq_iff (a b : bool) : (a = true <-> b = true) -> a = b.
@@ -227,7 +264,6 @@ Qed.
 (** ** UpdateRuleSet against the specification *)
 
 Section Update.
-Variable fx : fixes.
 Variables (st : repo) (S : sets) (s : nat) (ds : list rdef).
 Hypothesis HI : Inv st.
 Hypothesis HR : Rel (known st) S.
@@ -249,7 +285,7 @@ Proof.
 Qed.
 
 Lemma upd_keys_app : NoDup (map rkey app).
-Proof. apply NoDup_map_incl_filter. apply (k_keys _ (i_k _ HI)). Qed.
+Proof. apply NoDup_map_incl_filter. apply (k_keys _ _ (i_k _ HI)). Qed.
 
 Lemma upd_tbd : to_be_deleted app rs = filter P K.
 Proof.
@@ -310,7 +346,7 @@ Qed.
 Lemma upd_keys : NoDup (map rkey (K0 ++ tba)).
 Proof.
   apply NoDup_map_app.
-  - apply NoDup_map_incl_filter. apply (k_keys _ (i_k _ HI)).
+  - apply NoDup_map_incl_filter. apply (k_keys _ _ (i_k _ HI)).
   - apply NoDup_map_incl_filter. apply upd_keys_rs.
   - intros a b Ha Hb E. apply in_K0 in Ha as [HaK Ha]. apply in_tba in Hb as [Hb HbK].
     assert (Hs : r_src a = s).
@@ -341,7 +377,7 @@ Proof. unfold spec_accepts. rewrite !andb_true_iff. tauto. Qed.
 
 Lemma upd_SInv : spec_accepts S s ds = true -> SInv S'.
 Proof.
-  intro A. apply accepts_parts in A as (V & _ & NO). rewrite not_owned_spec in NO.
+  intro A. apply accepts_parts in A as (V & KO & NO). rewrite not_owned_spec in NO.
   split.
   - apply put_set_nodup. apply (s_nodup _ HS).
   - intros t dt Ht. apply (put_set_in S s ds t dt (s_nodup _ HS)) in Ht as [[E1 E2]|[N Ht]].
@@ -364,12 +400,12 @@ Qed.
 Lemma upd_add_phase d1 : ReprV d1 (routes K0) -> ReprF d1 ->
   match add_rules d1 tba with
   | inl d2 => (forall x, In x (routes tba) -> rpat x <> None) /\
-              ReprV d2 (routes (K0 ++ tba)) /\ srcuni (routes (K0 ++ tba))
-  | inr _ => (exists x, In x (routes tba) /\ rpat x = None) \/ ~ srcuni (routes (K0 ++ tba))
+              ReprV d2 (routes (K0 ++ tba)) /\ uni (routes (K0 ++ tba))
+  | inr _ => (exists x, In x (routes tba) /\ rpat x = None) \/ ~ uni (routes (K0 ++ tba))
   end.
 Proof.
   intros R F. rewrite add_rules_flat, routes_app.
-  apply add_routes_spec; [exact R|]. apply (k_src _ (KInv_filter K _ (i_k _ HI))).
+  apply add_routes_spec; [exact R|]. apply (k_uni _ _ (KInv_filter K _ (i_k _ HI))).
 Qed.
 
 Lemma upd_accept d1 : ReprV d1 (routes K0) -> ReprF d1 -> spec_accepts S s ds = true ->
@@ -379,11 +415,11 @@ Proof.
   destruct (add_rules d1 tba) as [d2|e] eqn:E.
   - exists d2. split; [reflexivity|]. destruct Ph as (_ & R2 & _). split; [exact R2|].
     rewrite add_rules_flat in E.
-    apply (add_routes_flag (routes tba) d1 (routes K0) d2 R (k_src _ (KInv_filter K _ (i_k _ HI))) F E).
-    rewrite <- routes_app. apply (k_bt _ KI).
+    apply (add_routes_flag (routes tba) d1 (routes K0) d2 R (k_uni _ _ (KInv_filter K _ (i_k _ HI))) F E).
+    rewrite <- routes_app. apply (k_bt _ _ KI).
   - exfalso. destruct Ph as [(x & Hx & Ex)|N].
-    + apply (k_valid _ KI x); [|exact Ex]. rewrite routes_app. apply in_app_iff. right. exact Hx.
-    + apply N. apply (k_src _ KI).
+    + apply (k_valid _ _ KI x); [|exact Ex]. rewrite routes_app. apply in_app_iff. right. exact Hx.
+    + apply N. apply (k_uni _ _ KI).
 Qed.
 
 (** *** the repository accepts: so does the specification *)
@@ -398,14 +434,21 @@ Qed.
 Lemma upd_complete d1 d2 : ReprV d1 (routes K0) -> ReprF d1 ->
   add_rules d1 tba = inl d2 -> spec_accepts S s ds = true.
 Proof.
-  intros R F E. pose proof (upd_add_phase d1 R F) as Ph. rewrite E in Ph. destruct Ph as (V & _ & U).
+  intros R F E. pose proof (upd_add_phase d1 R F) as Ph. rewrite E in Ph. destruct Ph as (V & _ & [U KU]).
   apply accepts_parts. split; [|split].
   - apply (valid_exprs_routes s). intros x Hx. fold rs in Hx.
     apply in_routes in Hx as (r & Hr & Hx).
     destruct (mem_rule r K) eqn:M.
-    + apply mem_rule_in in M. apply (k_valid _ (i_k _ HI)). apply in_routes. exists r. tauto.
+    + apply mem_rule_in in M. apply (k_valid _ _ (i_k _ HI)). apply in_routes. exists r. tauto.
     + apply mem_rule_false in M. apply V. apply in_routes. exists r. split; [apply in_tba; tauto | exact Hx].
-  - apply set_good_parts in Hgood. tauto.
+  - apply keys_ok_spec. intros a b Ha Hb.
+    assert (Hex : forall e, In e (exprs ds) -> exists x, In x (routes (K0 ++ tba)) /\ rt_path x = e).
+    { intros e He. unfold exprs in He. apply in_flat_map in He as (d & Hd & He).
+      destruct (routes_stamp_ex s ds d e Hd He) as (x & Hx & _ & Ep). exists x. split; [|exact Ep].
+      fold rs in Hx. apply in_routes in Hx as (r & Hr & Hx). apply in_routes. exists r.
+      split; [apply rs_in_new; exact Hr | exact Hx]. }
+    destruct (Hex a Ha) as (x & Hx & Ex). destruct (Hex b Hb) as (y & Hy & Ey).
+    rewrite <- Ex, <- Ey. apply (KU x y Hx Hy).
   - apply not_owned_spec. intros t dt p Ht N Hp Hq.
     apply (pats_routes s) in Hp as (x & Hx & Hpx). apply (pats_routes t) in Hq as (y & Hy & Hpy).
     fold rs in Hx.
@@ -485,3 +528,5 @@ Proof.
 Qed.
 
 End Update.
+
+End Fx.
